@@ -144,9 +144,14 @@ func (f *Frame) enterLoop(li *loopInfo, b *ssa.BasicBlock) {
 			prePhi[phi] = pv[0]
 		}
 	}
+	// Objects allocated by earlier iterations are anonymous: they get ids from a reserved band
+	// below everything the body allocates from here on, so a loop-carried reference can never
+	// be confused with an object of the current iteration.
+	u.objCtr += 1 << 12
+	carried := tb.BVU(32, uint64(freshBase+u.objCtr+1))
 	for _, phi := range lr.phis {
 		nv := u.freshValue("phi!"+phi.Comment, phi.Type())
-		for _, fact := range u.validFacts(phi.Type(), nv, tb.BVU(32, 0xffffffff)) {
+		for _, fact := range u.validFacts(phi.Type(), nv, carried) {
 			u.addFact(fact)
 		}
 		u.strFacts(nv)
@@ -157,7 +162,21 @@ func (f *Frame) enterLoop(li *loopInfo, b *ssa.BasicBlock) {
 	} else if con != nil && con.Flags["nowrite"] {
 		// nothing
 	} else {
+		f.loopLocalWrites = nil
 		sorts, all := f.loopWrites(li)
+		if !all {
+			// function-level locals assigned in the loop
+			for _, lrg := range f.loopLocalWrites {
+				av, ok := f.vals[lrg.alloc]
+				if !ok {
+					continue
+				}
+				et := lrg.alloc.Type().Underlying().(*types.Pointer).Elem()
+				lo := tb.Add(av[1], tb.BV(64, lrg.off))
+				regs := []region{{obj: av[0], lo: lo, hi: tb.Add(lo, tb.BV(64, lrg.size)), sorts: u.W.layout.ElemSorts(et), cond: tb.True()}}
+				f.cur.mem = f.havocRegions(f.cur.mem, regs, false)
+			}
+		}
 		if all {
 			f.cur.mem = f.havocRegions(f.cur.mem, nil, true)
 		} else if len(sorts) > 0 {
@@ -183,8 +202,6 @@ func (f *Frame) enterLoop(li *loopInfo, b *ssa.BasicBlock) {
 			lr.decAtHead = st2.decreases
 		}
 	}
-	// objects allocated inside the loop get ids from a band of their own
-	u.objCtr += 1 << 12
 	// 4. automatic index invariants (not while probing an enclosing loop's candidates twice over)
 	if !f.spec {
 		kept := f.inferLoopInvariants(li, b, lr.phis, prePhi, preState)
@@ -263,6 +280,162 @@ func (f *Frame) backEdge(li *loopInfo, from, header *ssa.BasicBlock, st BState) 
 	f.cur = save
 }
 
+type localRegion struct {
+	alloc     *ssa.Alloc
+	off, size int64
+}
+
+// staticRegion: the slot range of a local variable that an address expression denotes, if
+// that is decidable syntactically (chains of field / constant-index selections on an Alloc).
+func staticRegion(L *Layout, v ssa.Value) (root *ssa.Alloc, off, size int64, ok bool) {
+	var chain []ssa.Value
+	for i := 0; i < 16; i++ {
+		switch x := v.(type) {
+		case *ssa.Alloc:
+			root = x
+			size = L.Size(x.Type().Underlying().(*types.Pointer).Elem())
+			// apply the chain from the root outwards
+			for k := len(chain) - 1; k >= 0; k-- {
+				switch c := chain[k].(type) {
+				case *ssa.FieldAddr:
+					st := c.X.Type().Underlying().(*types.Pointer).Elem().Underlying().(*types.Struct)
+					off += L.FieldOffset(st, c.Field)
+					size = L.Size(st.Field(c.Field).Type())
+				case *ssa.IndexAddr:
+					at := c.X.Type().Underlying().(*types.Pointer).Elem().Underlying().(*types.Array)
+					if cst, isC := c.Index.(*ssa.Const); isC && cst.Value != nil {
+						off += cst.Int64() * L.Size(at.Elem())
+						size = L.Size(at.Elem())
+					}
+					// variable index: the whole array (size unchanged)
+				}
+			}
+			return root, off, size, true
+		case *ssa.FieldAddr:
+			chain = append(chain, x)
+			v = x.X
+		case *ssa.IndexAddr:
+			if _, isPtr := x.X.Type().Underlying().(*types.Pointer); !isPtr {
+				return nil, 0, 0, false
+			}
+			chain = append(chain, x)
+			v = x.X
+		default:
+			return nil, 0, 0, false
+		}
+	}
+	return nil, 0, 0, false
+}
+
+// paramRootedWrites reports the parameters through which fn (transitively) writes memory,
+// provided every store of fn goes through a parameter or a local variable of its own.
+func paramRootedWrites(w *World, fn *ssa.Function, depth int) ([]int, bool) {
+	if len(fn.Blocks) == 0 || depth > 3 {
+		return nil, false
+	}
+	written := map[int]bool{}
+	paramOf := func(v ssa.Value) (int, bool, bool) { // index, isParam, isLocal
+		for i := 0; i < 16; i++ {
+			switch x := v.(type) {
+			case *ssa.Parameter:
+				for k, p := range fn.Params {
+					if p == x {
+						return k, true, false
+					}
+				}
+				return 0, false, false
+			case *ssa.Alloc:
+				return 0, false, true
+			case *ssa.FieldAddr:
+				v = x.X
+			case *ssa.IndexAddr:
+				if _, isPtr := x.X.Type().Underlying().(*types.Pointer); !isPtr {
+					return 0, false, false
+				}
+				v = x.X
+			default:
+				return 0, false, false
+			}
+		}
+		return 0, false, false
+	}
+	for _, b := range fn.Blocks {
+		for _, in := range b.Instrs {
+			switch x := in.(type) {
+			case *ssa.Store:
+				k, isP, isL := paramOf(x.Addr)
+				if isP {
+					written[k] = true
+				} else if !isL {
+					return nil, false
+				}
+			case *ssa.MapUpdate, *ssa.Go, *ssa.Select, *ssa.Send, *ssa.Defer:
+				return nil, false
+			case ssa.CallInstruction:
+				c := x.Common()
+				if c.IsInvoke() {
+					return nil, false
+				}
+				switch cal := c.Value.(type) {
+				case *ssa.Builtin:
+					switch cal.Name() {
+					case "len", "cap", "min", "max", "print", "println", "ssa:wrapnilchk":
+					default:
+						return nil, false
+					}
+				case *ssa.Function:
+					pp := fnPkgPath(cal)
+					if pureExterns[pp+"."+funcKey(cal)] || isPureByPackage(pp) {
+						continue
+					}
+					if w.contractFor(cal) != nil {
+						return nil, false
+					}
+					ps, ok := paramRootedWrites(w, cal, depth+1)
+					if !ok {
+						return nil, false
+					}
+					for _, j := range ps {
+						k, isP, isL := paramOf(c.Args[j])
+						if isP {
+							written[k] = true
+						} else if !isL {
+							return nil, false
+						}
+					}
+				default:
+					return nil, false
+				}
+			}
+		}
+	}
+	var out []int
+	for k := range written {
+		out = append(out, k)
+	}
+	return out, true
+}
+
+// rootAlloc: the local variable an address expression points into, if it is one syntactically
+func rootAlloc(v ssa.Value) *ssa.Alloc {
+	for i := 0; i < 16; i++ {
+		switch x := v.(type) {
+		case *ssa.Alloc:
+			return x
+		case *ssa.FieldAddr:
+			v = x.X
+		case *ssa.IndexAddr:
+			if _, isPtr := x.X.Type().Underlying().(*types.Pointer); !isPtr {
+				return nil // element of a slice: the backing array is somewhere else
+			}
+			v = x.X
+		default:
+			return nil
+		}
+	}
+	return nil
+}
+
 // loopWrites: the slot sorts that instructions of the loop body may write (syntactic).
 func (f *Frame) loopWrites(li *loopInfo) (sorts []Sort, all bool) {
 	L := f.u.W.layout
@@ -285,6 +458,16 @@ func (f *Frame) loopWrites(li *loopInfo) (sorts []Sort, all bool) {
 			for _, in := range b.Instrs {
 				switch x := in.(type) {
 				case *ssa.Store:
+					// a store into a local variable only changes that variable: per-iteration locals
+					// are fresh objects, function-level locals are havocked individually (field-precise)
+					if root, off, _, ok := staticRegion(L, x.Addr); ok && fn == f.fn {
+						if !li.body[root.Block()] {
+							f.loopLocalWrites = append(f.loopLocalWrites, localRegion{root, off, L.Size(x.Val.Type())})
+						}
+						continue
+					} else if ok && depth > 0 {
+						continue // local of an inlined callee: fresh per call
+					}
 					add(L.ElemSorts(x.Val.Type()))
 				case *ssa.MapUpdate:
 					all = true
@@ -328,6 +511,25 @@ func (f *Frame) loopWrites(li *loopInfo) (sorts []Sort, all bool) {
 						}
 						pp := fnPkgPath(cal)
 						if pureExterns[pp+"."+funcKey(cal)] || isPureByPackage(pp) {
+							continue
+						}
+						if ps, ok := paramRootedWrites(f.u.W, cal, 0); ok && fn == f.fn {
+							// the callee writes only through some of its pointer parameters
+							for _, k := range ps {
+								arg := c.Args[k]
+								pt, isPtr := arg.Type().Underlying().(*types.Pointer)
+								if !isPtr {
+									all = true
+									continue
+								}
+								if root, off, _, ok := staticRegion(L, arg); ok {
+									if !li.body[root.Block()] {
+										f.loopLocalWrites = append(f.loopLocalWrites, localRegion{root, off, L.Size(pt.Elem())})
+									}
+									continue
+								}
+								add(L.ElemSorts(pt.Elem()))
+							}
 							continue
 						}
 						if len(cal.Blocks) > 0 && depth < 6 && !visited[cal] {
